@@ -49,7 +49,9 @@ def build(rng, tier):
             inp = gen.gen_lat_input(r2, p)
             for k in range(MAXK):
                 inst = f"{pid}_{j}_{k}"
-                ops = [f"eng new {inst} {pid}"] + engcheck.load_ops(inst, inp) + [f"eng runto {inst} {k}", f"eng dump {inst}", f"eng run {inst}", f"eng dump {inst}"]
+                # odd inputs: the Lean side is the physical-index lattice engine under a deadline (Model/EnginePhysLatTimeout.lean: `runtopl`, then `runpl`)
+                rt, rn = ("runtopl", "runpl") if j % 2 == 1 else ("runto", "run")
+                ops = [f"eng new {inst} {pid}"] + engcheck.load_ops(inst, inp) + [f"eng {rt} {inst} {k}", f"eng dump {inst}", f"eng {rn} {inst}", f"eng dump {inst}"]
                 cases.append(engcheck.Case(pid, inst, ops, {"inp": inp, "kind": "lattice-single", "k": k, "lat": True}))
     # stratified programs with aggregation / negation downstream of (recursive) strata, under every crash point
     for i, p in enumerate(engcheck.make_programs(rng.fork("c14agg"), 5 if tier == "quick" else 25, genf=gen.gen_agg_program, filt=eng.stratifiable)):
@@ -102,7 +104,7 @@ def oracle(c, p, out):
     inp_sets = {r: {eng.sx_tuple(t) for t in c.meta["inp"].get(r, [])} for r in range(len(p["rels"]))}
     prev_ret = None
     for o, l in zip(c.ops, out):
-        if o.startswith("eng runto") or (o.startswith("eng run ") or o.startswith("eng runp ")):
+        if o.startswith("eng runto") or (o.startswith("eng run ") or o.startswith("eng runp ") or o.startswith("eng runpl ")):
             if l.startswith("panic") or l in ("bad-op",): return f"`{o}` -> {l}"
             prev_ret = l
         elif o.startswith("eng dump"):
@@ -138,7 +140,7 @@ def canon(c, out):
         # after a first interruption the value left behind depends on which valid SCC order was followed, hence so does the number of clock
         # readings the NEXT call needs: only the first return value and the final completing call (return value and state) are compared with
         # the model; every call in between is judged by the oracle alone (false alarm of the thorough tier, see DESIGN.md section 14)
-        calls = [i for i, o in enumerate(c.ops) if o.startswith("eng runto") or (o.startswith("eng run ") or o.startswith("eng runp "))]
+        calls = [i for i, o in enumerate(c.ops) if o.startswith("eng runto") or (o.startswith("eng run ") or o.startswith("eng runp ") or o.startswith("eng runpl "))]
         first, final = calls[0], calls[-1]
         res = []
         for i, (o, l) in enumerate(zip(c.ops, out)):
@@ -149,7 +151,7 @@ def canon(c, out):
         return res
     res, last = [], None
     for o, l in zip(c.ops, out):
-        if o.startswith("eng runto") or (o.startswith("eng run ") or o.startswith("eng runp ")): last = l
+        if o.startswith("eng runto") or (o.startswith("eng run ") or o.startswith("eng runp ") or o.startswith("eng runpl ")): last = l
         res.append("<state at interruption>" if o.startswith("eng dump") and last == "false" else l)
     return res
 
